@@ -11,9 +11,6 @@ Definition sigma2fwhm (s : R) : R := s * sqrt (8 * ln 2).
 (* the Gaussian of _normsq/__call__ at world distance x: exp(-(x/sigma)^2/2) *)
 Definition gauss (sigma x : R) : R := exp (- ((x / sigma) * (x / sigma) / 2)).
 
-(* _normsq: `if self.fwhm != 1.0:` guards the division by fwhm2sigma(fwhm) *)
-Definition eff_sigmaR (f : R) : R := if Req_EM_T f 1 then 1 else fwhm2sigma f.
-
 (* utils.matrices.pos_recipr *)
 Definition pos_recipr (x : R) : R := if Rlt_dec 0 x then 1 / x else 0.
 
@@ -21,6 +18,6 @@ Definition pos_recipr (x : R) : R := if Rlt_dec 0 x then 1 / x else 0.
 (* np.sqrt(4*np.log(2.)) * self.wedge * pos_recipr(np.power(resels, 1./self.D)) *)
 Definition resel2fwhm (root : R -> R) (wedge r : R) : R :=
   sqrt (4 * ln 2) * wedge * pos_recipr (root r).
-(* pos_recipr(np.power(fwhm / np.sqrt(4*np.log(2)) * self.wedge, self.D)) *)
+(* pos_recipr(np.power(fwhm / (np.sqrt(4*np.log(2)) * self.wedge), self.D)) *)
 Definition fwhm2resel (D : nat) (wedge f : R) : R :=
-  pos_recipr ((f / sqrt (4 * ln 2) * wedge) ^ D).
+  pos_recipr ((f / (sqrt (4 * ln 2) * wedge)) ^ D).
